@@ -325,7 +325,7 @@ spif_url_parse(spif_url_t self)
     /* If we have a proto but no port, see if we can resolve the port using the proto. */
     if (SPIF_STR_ISNULL(self->port) && !SPIF_STR_ISNULL(self->proto)) {
         spif_protoinfo_t proto;
-        spif_servinfo_t serv;
+        spif_servinfo_t serv = (spif_servinfo_t) NULL;
 
         proto = getprotobyname((char *) SPIF_STR_STR(self->proto));
         if (!proto) {
@@ -339,7 +339,7 @@ spif_url_parse(spif_url_t self)
                 REQUIRE_RVAL(proto != NULL, FALSE);
             }
         }
-        if (proto) {
+        if (proto && serv) {
             spif_char_t buff[32];
 
             snprintf((char *) buff, sizeof(buff), "%d", ntohs(serv->s_port));
